@@ -45,8 +45,11 @@ macro_rules! error {
 macro_rules! catch {
     ($f:expr, $msg:expr, $arg:expr) => {
         std::panic::catch_unwind(std::panic::AssertUnwindSafe($f)).map_err(|e| {
-            let message = if let Some(msg) = e.downcast_ref::<&'static str>() {
+            let message: &'static str = if let Some(msg) = e.downcast_ref::<&'static str>() {
                 *msg
+            } else if let Some(msg) = e.downcast_ref::<String>() {
+                // `panic!("{x}")` carries a `String`
+                msg.clone().leak()
             } else {
                 $msg.leak()
             };
